@@ -96,9 +96,22 @@ MODEL_CFGS = {
                        Budget=1, Enable=vlib.tla_set(["api", "gc"])),
                   {"nodes": ["n1", "n2"], "grace": 2, "strip_hb": True, "val_size": 50000}, False, [],
                   {"emit": "EmitFocus", "report": 60, "corpus": True}),
+    # owner + two replicas, one entry per datagram, GC: a replica in the middle of a reset hears from the
+    # OTHER replica (stale relay, the shape of KF-1) -- deliveries to a mid-reset copy only
+    "three_relay": (dict(Node=vlib.tla_set(["n1", "n2", "n3"]), Val=vlib.tla_set(["a"]), Budget=1,
+                         Enable=vlib.tla_set(["api", "gc"])),
+                    {"nodes": ["n1", "n2", "n3"], "grace": 2, "strip_hb": True, "val_size": 50000}, False, [],
+                    {"emit": "EmitFocus", "report": 60, "corpus": True}),
+    # the same with three keys and four versions (3.0 M states, 17 min of TLC: corpus in the quick tier)
+    "three_relay_l": (dict(Node=vlib.tla_set(["n1", "n2", "n3"]), Key=vlib.tla_set(["k1", "k2", "k3"]),
+                           Val=vlib.tla_set(["a"]), MaxVer=4, Budget=1, Enable=vlib.tla_set(["api", "gc"])),
+                      {"nodes": ["n1", "n2", "n3"], "grace": 2, "strip_hb": True, "val_size": 50000}, False, [],
+                      {"emit": "EmitFocus", "report": 60, "corpus": True}),
 }
-TIER_MODELS = {"quick": ["two", "two_mtu", "member", "clusters", "catchup", "two_delay"],
-               "thorough": ["two", "two_mtu", "two_ttl", "three", "member_l", "clusters", "catchup", "two_delay"]}
+TIER_MODELS = {"quick": ["two", "two_mtu", "member", "clusters", "catchup", "two_delay", "three_relay",
+                         "three_relay_l"],
+               "thorough": ["two", "two_mtu", "two_ttl", "three", "member_l", "clusters", "catchup", "two_delay",
+                            "three_relay", "three_relay_l"]}
 
 FD_SMALL = {"phi": 2.0, "window": 3, "max_interval": 4, "initial": 2, "dead_grace": 6}
 FD_CONST = {"PhiN": 2, "PhiD": 1, "Window": 3, "MaxInterval": 4, "Prior": 2, "DeadGrace": 6}
@@ -515,7 +528,7 @@ def family_run(tier, seed):
                               view="View", constraint="Bounded",
                               action_constraint=mopts.get("emit", "EmitEdge"))
         m = vlib.cached_model_run("gossip_" + name, "MC_Gossip.tla", cfgp, FILES[:4], workers=6,
-                                  timeout=3400, heap="12g",
+                                  timeout=3400, heap="24g",
                                   corpus=bool(mopts.get("corpus")) and tier == "quick")
         if not m["ok"]:
             raise vlib.ToolError(f"Gossip model {name}: formula fails on the MODEL (specification "
